@@ -318,6 +318,46 @@ impl<'de> serde::Deserialize<'de> for Pod3 {
     }
 }
 
+/// Plain data of size 20, alignment 4: every byte is derived from the token and checked on reading.
+#[derive(Clone, Copy, PartialEq, Eq, Debug)]
+pub struct Pod20(pub [u32; 5]);
+impl Field for Pod20 {
+    const NAME: &'static str = "Pod20";
+    const DROPPABLE: bool = false;
+    fn make(tok: u64) -> Self {
+        let t = tok as u32;
+        Pod20([t, t ^ 0x1111_1111, t ^ 0x2222_2222, t ^ 0x3333_3333, t ^ 0x4444_4444])
+    }
+    fn tok(&self) -> u64 {
+        let t = self.0[0];
+        if *self == Self::make(t as u64) {
+            t as u64
+        } else {
+            u64::MAX - 1
+        }
+    }
+    fn norm(tok: u64) -> u64 {
+        tok & 0xffff_ffff
+    }
+    fn set_tok(&mut self, tok: u64) {
+        *self = Self::make(tok);
+    }
+}
+impl serde::Serialize for Pod20 {
+    fn serialize<S: serde::Serializer>(&self, s: S) -> Result<S::Ok, S::Error> {
+        s.serialize_u64(self.tok())
+    }
+}
+impl<'de> serde::Deserialize<'de> for Pod20 {
+    fn deserialize<D: serde::Deserializer<'de>>(d: D) -> Result<Self, D::Error> {
+        let tok = <u64 as serde::Deserialize>::deserialize(d)?;
+        if tok == POISON_TOK {
+            return Err(<D::Error as serde::de::Error>::custom("undecodable element"));
+        }
+        Ok(Self::make(tok))
+    }
+}
+
 /// Plain zero-size data.
 #[derive(Clone, Copy, PartialEq, Eq, Debug)]
 pub struct PodZ;
@@ -373,6 +413,10 @@ macro_rules! own_type {
             }
             fn tok(&self) -> u64 {
                 let inline = self.tok as u64;
+                // the filler bytes are part of the value: a store that loses the tail of a big value shows here
+                $(if self.pad != $pad_val {
+                    return u64::MAX - 1;
+                })?
                 match ledger::tok_of(self.id as u64) {
                     // the inline copy must agree with the ledger (detects clobbered bytes)
                     Some(t) if (t as $tok_ty) as u64 == inline => t,
@@ -435,6 +479,9 @@ own_type!(#[repr(C)] Own12, id: u32, tok: u32, pad: u32 = 0x5a5a_5a5a);
 own_type!(#[repr(C)] Own12b, id: u32, tok: u32, pad: u32 = 0x5a5a_5a5a);
 own_type!(#[repr(C)] Own24, id: u64, tok: u64, pad: u64 = 0x5a5a_5a5a_5a5a_5a5a);
 own_type!(#[repr(C)] Own24b, id: u64, tok: u64, pad: u64 = 0x5a5a_5a5a_5a5a_5a5a);
+// bigger than 16 bytes with a size that is not a multiple of 8 (word-wise copies lose the tail)
+own_type!(#[repr(C)] Own20, id: u32, tok: u32, pad: [u32; 3] = [0x5a5a_5a5a; 3]);
+own_type!(#[repr(C)] Own33, id: u8, tok: u8, pad: [u8; 31] = [0x5a; 31]);
 own_type!(#[repr(C, align(16))] Own16a, id: u32, tok: u32);
 own_type!(#[repr(C, align(16))] Own16b, id: u32, tok: u32);
 own_type!(#[repr(C)] Big72, id: u32, tok: u32, pad: [u64; 8] = [0x5a5a_5a5a_5a5a_5a5a; 8]);
